@@ -2,7 +2,9 @@
    bool/option/unit/list/prod/sumbool/sumor mapped to OCaml's, andb/orb inlined;
    N, Z, positive, nat stay the extracted inductive types. *)
 From Coq Require Extraction ExtrOcamlBasic.
-From Avfs Require Import Base MemIdm Copy.
+From Avfs Require Import Base MemIdm Copy PathModel PathMatch.
 Extraction Language OCaml.
 Extraction "model.ml" idm_init idm_run ref_init ref_run crun
-  copy_transcript hash_transcript.
+  copy_transcript hash_transcript
+  clean join split dir base is_abs abs from_slash to_slash volume_name volume_name_len split_abs rel path_match
+  pi_new pi_next pi_part pi_left pi_right pi_is_last pi_replace_part pi_parts.
